@@ -18,7 +18,7 @@ from hypothesis import strategies as st
 
 from .. import gen, isolated, loader, universe
 from ..engine import Outcome, Prop
-from . import c14
+from . import c04, c14
 
 # ------------------------------------------------------------------ deterministic scheduler
 
@@ -167,6 +167,14 @@ def obj(draw):
 def ops_case(draw):
     n = draw(st.integers(2, 4))
     objs = [draw(obj()) for _ in range(n)]
+    if draw(st.integers(0, 5)) == 0:
+        # two objects holding the two halves of one script: the tables, and ALTER / INDEX statements naming those tables (which
+        # must raise in a parser that never saw the tables, whatever another object parsed before)
+        c = draw(c04.case_strategy(4))
+        c["undefined"] = None
+        c.pop("layout", None)
+        for i, part in enumerate(["tables", "ops"]):
+            objs[i] = dict(objs[i], src={"t": "split", "c04": c, "part": part})
     tokens = []
     for i in range(n):
         tokens += [i] * (1 + draw(st.integers(1, 2)))
